@@ -580,7 +580,9 @@ func (dec *Decoder) defaultDecode(t reflect.Type, p interface{}, tag byte) {
 	case TagError:
 		var s string
 		dec.decodeString(stringType, dec.NextByte(), &s)
-		dec.Error = DecodeError(s)
+		if dec.Error == nil {
+			dec.Error = DecodeError(s)
+		}
 		return
 	default:
 		dec.decodeError(t, tag)
